@@ -64,6 +64,108 @@ macro_rules! rt_world {
     }};
 }
 
+macro_rules! ro_world {
+    ($ty:ty, $input:expr) => {{
+        let input: &[u8] = $input;
+        let mut cur = Cursor::new(input);
+        match <$ty>::read_unencrypted(&mut cur) {
+            Err(e) => Err(format!("{e:?}")),
+            Ok(m) => Ok(m.to_string()),
+        }
+    }};
+}
+
+/// Decode only. Ok(message name) or Err(debug text of the error value).
+pub fn read_only(exp: &str, lv: u64, dir: &str, input: &[u8]) -> Result<String, String> {
+    use wow_world_messages::{tbc, vanilla, wrath};
+    match (exp, dir) {
+        ("vanilla", "client") => ro_world!(vanilla::opcodes::ClientOpcodeMessage, input),
+        ("vanilla", "server") => ro_world!(vanilla::opcodes::ServerOpcodeMessage, input),
+        ("tbc", "client") => ro_world!(tbc::opcodes::ClientOpcodeMessage, input),
+        ("tbc", "server") => ro_world!(tbc::opcodes::ServerOpcodeMessage, input),
+        ("wrath", "client") => ro_world!(wrath::opcodes::ClientOpcodeMessage, input),
+        ("wrath", "server") => ro_world!(wrath::opcodes::ServerOpcodeMessage, input),
+        ("login", _) => login_dispatch::read_only(lv, dir == "client", input),
+        _ => Err(format!("unknown exp/dir {exp}/{dir}")),
+    }
+}
+
+fn le_value(v: &Value) -> (u128, usize) {
+    let b = bytes_of(v);
+    let mut x: u128 = 0;
+    for (i, byte) in b.iter().enumerate() {
+        x |= (*byte as u128) << (8 * i);
+    }
+    (x, b.len())
+}
+
+/// number following `key` in a Debug string, e.g. `value: -3` / `opcode: 17` / `Opcode(17`
+fn number_after(text: &str, key: &str) -> Option<i128> {
+    let i = text.find(key)? + key.len();
+    let rest = text[i..].trim_start();
+    let end = rest
+        .char_indices()
+        .find(|(j, c)| !(c.is_ascii_digit() || (*j == 0 && *c == '-')))
+        .map(|(j, _)| j)
+        .unwrap_or(rest.len());
+    rest[..end].parse().ok()
+}
+
+/// Fault records (C03 / C04): an altered encoding with the outcome class the specification demands.
+pub fn judge_fault(rec: &Value) -> Value {
+    let name = rec["name"].as_str().unwrap_or("").to_string();
+    let exp = rec["exp"].as_str().unwrap_or("").to_string();
+    let dir = rec["dir"].as_str().unwrap_or("").to_string();
+    let lv = rec["lv"].as_u64().unwrap_or(0);
+    let outcome = rec["outcome"].as_str().unwrap_or("any").to_string();
+    let base = |verdict: &str, detail: Value| {
+        json!({"id": rec["id"], "name": name, "exp": exp, "lv": lv, "dir": dir, "prof": rec["prof"],
+               "fk": rec["fk"], "site": rec["site"], "outcome": outcome, "verdict": verdict, "detail": detail})
+    };
+    let input = match build_input(rec) {
+        Ok(i) => i,
+        Err(e) => return base("harness_unsupported", json!(e)),
+    };
+    let res = guarded(|| read_only(&exp, lv, &dir, &input.bytes));
+    match res {
+        Err(p) => base("panic", json!({"panic": p, "input": hex(&input.bytes)})),
+        Ok(Ok(decoded)) => {
+            if outcome == "any" {
+                base("ok", Value::Null)
+            } else {
+                base("accepted", json!({"decoded_as": decoded, "input": hex(&input.bytes)}))
+            }
+        }
+        Ok(Err(e)) => match outcome.as_str() {
+            "any" | "err_any" => base("ok", Value::Null),
+            "err_enum" => {
+                let (want, w) = le_value(&rec["val"]);
+                let got = if e.contains("Enum(EnumError") { number_after(&e, "value: ") } else { None };
+                let modulus: i128 = if w >= 16 { 0 } else { 1i128 << (8 * w) };
+                let same = match got {
+                    Some(g) => g == want as i128 || (modulus != 0 && g.rem_euclid(modulus) == want as i128),
+                    None => false,
+                };
+                if same {
+                    base("ok", Value::Null)
+                } else {
+                    base("wrong_error", json!({"error": e, "expected_value": want.to_string(), "input": hex(&input.bytes)}))
+                }
+            }
+            "err_opcode" => {
+                let (want, _) = le_value(&rec["val"]);
+                let got = number_after(&e, "Opcode { opcode: ").or_else(|| number_after(&e, "Opcode("));
+                if got == Some(want as i128) {
+                    base("ok", Value::Null)
+                } else {
+                    base("wrong_error", json!({"error": e, "expected_value": want.to_string(), "input": hex(&input.bytes)}))
+                }
+            }
+            _ => base("harness_unsupported", json!("unknown outcome")),
+        },
+    }
+}
+
 pub fn roundtrip(exp: &str, lv: u64, dir: &str, input: &[u8]) -> Result<Rt, String> {
     use wow_world_messages::{tbc, vanilla, wrath};
     match (exp, dir) {
@@ -222,8 +324,30 @@ pub fn judge(rec: &Value) -> Value {
     }
 }
 
-pub fn run(_args: &[String]) -> i32 {
+static DEADLINE: std::sync::atomic::AtomicU64 = std::sync::atomic::AtomicU64::new(u64::MAX);
+
+fn now_ms() -> u64 {
+    std::time::SystemTime::now().duration_since(std::time::UNIX_EPOCH).unwrap().as_millis() as u64
+}
+
+/// args: [--limit-as <bytes>]  (address-space budget for one decode, C03)
+pub fn run(args: &[String]) -> i32 {
     install_quiet_panic_hook();
+    if args.first().map(|s| s.as_str()) == Some("--limit-as") {
+        if let Some(n) = args.get(1).and_then(|s| s.parse::<u64>().ok()) {
+            let lim = libc::rlimit { rlim_cur: n, rlim_max: n };
+            // SAFETY: plain syscall wrapper with a valid pointer
+            unsafe { libc::setrlimit(libc::RLIMIT_AS, &lim) };
+        }
+    }
+    // watchdog: a record that takes longer than 5 s kills the process (reported as an abort)
+    std::thread::spawn(|| loop {
+        std::thread::sleep(std::time::Duration::from_millis(200));
+        if now_ms() > DEADLINE.load(std::sync::atomic::Ordering::SeqCst) {
+            eprintln!("watchdog: record exceeded 5 s");
+            std::process::abort();
+        }
+    });
     let stdin = std::io::stdin();
     let stdout = std::io::stdout();
     let mut w = std::io::BufWriter::new(stdout.lock());
@@ -243,14 +367,16 @@ pub fn run(_args: &[String]) -> i32 {
                 return 2;
             }
         };
-        if rec["kind"] != "codec" {
+        if rec["kind"] != "codec" && rec["kind"] != "fault" {
             continue;
         }
         n += 1;
         // progress marker: lets the supervisor resume after the record that kills the process
         writeln!(w, "@{n}").unwrap();
         w.flush().unwrap();
-        let v = judge(&rec);
+        DEADLINE.store(now_ms() + 5_000, std::sync::atomic::Ordering::SeqCst);
+        let v = if rec["kind"] == "fault" { judge_fault(&rec) } else { judge(&rec) };
+        DEADLINE.store(u64::MAX, std::sync::atomic::Ordering::SeqCst);
         if v["verdict"] == "ok" {
             ok += 1;
         } else {
